@@ -51,8 +51,8 @@ def run(ctx):
     body = ctx.body(EFB)
     paths = ctx.paths(EFB)
     if paths:
-        args_locals = [i for i, l in enumerate(body.f["locals"]) if l["ty"] == "std::option::Option<&std::ffi::OsStr>" and body.local_name(i) == "args"]
-        ctx.floor("D1-CMD-TABLE", EFB, "`args` local", len(args_locals), 1)
+        args_locals = [i for i, l in enumerate(body.f["locals"]) if l["ty"] == "std::option::Option<&std::ffi::OsStr>" and body.local_name(i) is not None]
+        ctx.floor("D1-CMD-TABLE", EFB, "the user variable of type Option<&OsStr> holding the argument", len(args_locals), 1)
         al = args_locals[0] if args_locals else None
         table = {}
         for p in ret_paths(paths):
